@@ -237,14 +237,16 @@ namespace nmtools::index
             auto n = len(indices);
             if constexpr (meta::is_resizable_v<return_t>)
                 ret.resize(n);
+            // following numpy, negative axis counts from the last axis
+            const auto m_axis = ((nm_index_t)axis < 0) ? ((nm_index_t)axis + (nm_index_t)n) : (nm_index_t)axis;
             for (size_t i=0; i<n; i++) {
                 using common_t = meta::promote_index_t<size_t,axis_t>;
                 auto idx = at(indices,i);
                 if constexpr (meta::is_index_v<repeats_t>) {
-                    at(ret,i) = (static_cast<common_t>(i)==static_cast<common_t>(axis) ? idx / repeats : idx);
+                    at(ret,i) = (static_cast<common_t>(i)==static_cast<common_t>(m_axis) ? idx / repeats : idx);
                 } else {
                     auto csum = cumsum(repeats);
-                    if (static_cast<common_t>(i)==static_cast<common_t>(axis)) {
+                    if (static_cast<common_t>(i)==static_cast<common_t>(m_axis)) {
                         // note: len(repeats) == shape[axis]
                         // simply find arg of repeats such that idx >= accumulate(repeats)[args]
                         auto f = [&](auto a){
